@@ -79,10 +79,8 @@ def load(fmt, v, opt):
 
 
 def cost(ta, tb):
-    e = ta.edits(tb)
-    refine(e)
-    tighten_fully(e)
-    return int(e.bounds().upper_bound), type(e).__name__
+    d = ta.diff(tb)
+    return int(d.edited_cost()), type(d.edit).__name__
 
 
 def same_eval(v):
